@@ -475,6 +475,12 @@ class GeminiServerProtocol(asyncio.Protocol):
                 if self.transport and error_response:
                     self.transport.write(error_response.encode("utf-8"))
                     self.transport.close()
+                else:
+                    # Rejected without a response to send: still answer and
+                    # close instead of leaving the connection open forever
+                    self._send_error_response(
+                        StatusCode.TEMPORARY_FAILURE, "Request refused"
+                    )
                 return
 
             # Middleware allowed request - continue routing
